@@ -31,6 +31,25 @@ CLEAN_FORBIDDEN = {
 }
 
 
+# the same construct more than once in one behaviour (shared or cached nodes show up only then)
+REPEATS = [
+    "{ cancel_slot; cancel_slot; }", "{ if (PuV) { cancel_slot; } else { cancel_slot; } RdV = RsV; cancel_slot; }",
+    "{ STORE_SLOT_CANCELLED(pkt, slot); STORE_SLOT_CANCELLED(pkt, slot); }",
+    "{ if (PuV) { STORE_SLOT_CANCELLED(pkt, slot); } else { STORE_SLOT_CANCELLED(pkt, slot); cancel_slot; } }",
+    "{ EA = RsV; RdV = ((int32_t)mem_load_s32(EA)); ReV = ((int32_t)mem_load_s32(EA)); }",
+    "{ EA = RsV; mem_store_u32(EA, RtV); mem_store_u32(EA, RtV); }",
+    "{ JUMP(RsV); JUMP(RsV); }", "{ if (PuV) { JUMP(RsV); } else { JUMP(RsV); } }",
+    "{ RdV = RsV + RsV + RsV; ReV = RsV; RxV = RsV; }", "{ RdV = siV + siV; ReV = siV; }",
+    "{ RdV = (RsV + 1) * (RsV + 1); ReV = (RsV + 1); }", "{ int32_t a = 1; RdV = a + a + a; ReV = a; }",
+    "{ RdV = clz32(RsV) + clz32(RsV); ReV = clz32(RsV); }", "{ i = 0; RdV = i++ + i++; ReV = i++; }",
+    "{ RdV = sextract64(RsV, 0, 8) + sextract64(RsV, 0, 8); }", "{ RdV = 5; ReV = 5; RxV = 5 + 5; }",
+    "{ RdV = HEX_REG_ALIAS_PC + HEX_REG_ALIAS_PC; ReV = HEX_REG_ALIAS_PC; }", "{ RdV = P0 + P0; ReV = P0; P1 = P0; }",
+    "{ RdV = (PuV ? RsV : RtV) + (PuV ? RsV : RtV); }", "{ ; ; { } { ; } RdV = RsV; ; }",
+    "{ for (i = 0; i < 2; i++) { cancel_slot; } for (j = 0; j < 2; j++) { cancel_slot; } }",
+    "{ RdV = (PuV ? ({ int32_t q = RsV; q; }) : RtV) + (PvV ? RtV : ({ int32_t r = RsV; r; })); }",
+]
+
+
 def problems_for(prop: str, rep: dict) -> list[str]:
     if "error" in rep:
         return ["driver error: " + rep["error"][:100]]
@@ -290,7 +309,7 @@ def run_prop(prop: str, tier: str, replay=None) -> int:
 
     # ---- generated programs ------------------------------------------------------------------------
     n_clean, n_wild = (120, 120) if tier == "quick" else (1500, 1500)
-    items, gstats = textcheck.gen_run(n_clean, n_wild, CLEAN_FORBIDDEN[prop], rng_salt=int(prop[1:]))
+    items, gstats = textcheck.gen_run(n_clean, n_wild, CLEAN_FORBIDDEN[prop], rng_salt=int(prop[1:]), extra_programs=REPEATS)
     # sub-routines whose compiled body sets a compiler temporary h_tmpN (flat namespace shared with callers)
     tmp_callees = [n for n, _, _, text in rc.sub_routine_defs(rc.compiler()) if 'SETL("h_tmp' in text]
     for it in items:
